@@ -349,34 +349,26 @@ class Doc:
         cs = self.shape_contours(el)
         if not cs:
             return False
-        d = geom.stroke_dist(cs, ux, uy)
         smin = min(math.hypot(ctm[0], ctm[1]), math.hypot(ctm[2], ctm[3]))
         smin = max(smin, 1e-9)
         band = self.eps / smin + 0.3     # Skia's stroker works at 0.25 unit resolution
         miter = max(fnum(ctx.get("stroke-miterlimit"), 4.0), 1.0)
-        cap_ext = 1.0 if ctx.get("stroke-linecap", "butt") == "butt" else math.sqrt(2)
-        dash = ctx.get("stroke-dasharray", "none")
-        if dash not in ("none", ""):
-            # dashed: only "definitely outside" can be decided cheaply
-            if d > (w / 2) * max(miter, cap_ext) + band:
-                return False
-            return UNKNOWN
-        if d < w / 2 - band:
-            # within half the width of the outline.  Covered for certain only where a perpendicular foot falls on a
-            # segment; in the wedge outside a corner the cover depends on the join (round: the disc, bevel / clipped miter:
-            # only part of it)
-            if ctx.get("stroke-linejoin", "miter") != "round" and not geom.strip_inside(cs, ux, uy, w / 2 - band):
-                return UNKNOWN
-            # inside unless near an open end with butt cap
-            for pts, closed in cs:
-                if not closed:
-                    for endp in (pts[0], pts[-1]):
-                        if math.hypot(ux - endp[0], uy - endp[1]) < w / 2 * cap_ext + band:
-                            return UNKNOWN
-            return True
-        if d > (w / 2) * max(miter, cap_ext) + band:
-            return False
-        return UNKNOWN
+        dash_s = ctx.get("stroke-dasharray", "none")
+        dash = []
+        if dash_s not in ("none", ""):
+            try:
+                dash = [float(t) for t in re.split(r"[\s,]+", dash_s.strip()) if t]
+            except ValueError:
+                raise Unsupported("dash array")
+            if any(v < 0 for v in dash):
+                raise Unsupported("negative dash")
+            if len(dash) % 2:
+                dash = dash + dash
+            if sum(dash) <= 0:
+                dash = []
+        r = geom.stroke_classify(cs, ux, uy, w, ctx.get("stroke-linejoin", "miter"), miter, ctx.get("stroke-linecap", "butt"),
+                                 dash, fnum(ctx.get("stroke-dashoffset"), 0.0), band)
+        return UNKNOWN if r is None else r
 
     def in_clip(self, clip_el, ctm, x, y, depth=0):
         """clipPath element applied to an element whose user space is ctm"""
